@@ -59,6 +59,8 @@ struct Cfg {
     choice_at: Option<(usize, usize)>,
     in_block: bool,
     insert_begin: bool,
+    /// set_version is called after the last id was allocated (just before module()) instead of first
+    version_late: bool,
 }
 
 fn needs_block(site: &CallSite) -> bool {
@@ -121,7 +123,9 @@ fn check_site(site: &CallSite, cfg: &Cfg) -> SiteResult {
     let block_ctx = needs_block(site) || cfg.in_block;
     let r = guarded(|| -> Result<(), (String, String)> {
         let mut b = Builder::new();
-        b.set_version(1, 3);
+        if !cfg.version_late {
+            b.set_version(1, 3);
+        }
         for _ in 0..120 {
             b.id();
         }
@@ -224,6 +228,9 @@ fn check_site(site: &CallSite, cfg: &Cfg) -> SiteResult {
         if b.selected_function().is_some() {
             b.end_function().map_err(|e| ("setup".to_string(), format!("{:?}", e)))?;
         }
+        if cfg.version_late {
+            b.set_version(1, 3);
+        }
         let m = b.module();
         let built = snap(&m);
         let h = m.header.clone().ok_or(("header".to_string(), "module() has no header".to_string()))?;
@@ -277,8 +284,8 @@ fn check_site(site: &CallSite, cfg: &Cfg) -> SiteResult {
 }
 
 fn configs(site: &CallSite, tier: Tier) -> Vec<Cfg> {
-    let base = Cfg { explicit_id: false, opt_upto: usize::MAX, list_len: 2, choice_at: None, in_block: false, insert_begin: false };
-    let mut v = vec![base.clone()];
+    let base = Cfg { explicit_id: false, opt_upto: usize::MAX, list_len: 2, choice_at: None, in_block: false, insert_begin: false, version_late: false };
+    let mut v = vec![base.clone(), Cfg { version_late: true, ..base.clone() }];
     let has_id = site.params.iter().any(is_result_id_param);
     let has_ip = site.params.iter().any(|p| p.ty == Ty::InsertPoint);
     if has_id {
@@ -343,12 +350,13 @@ enum HOp {
     Ret,
     Kill,
     EndFunction,
+    SetVersion,
 }
 
-const HOPS: [HOp; 21] = [
+const HOPS: [HOp; 22] = [
     HOp::Capability, HOp::ExtInstImport, HOp::MemoryModel, HOp::EntryPoint, HOp::ExecutionMode, HOp::DebugString, HOp::Name, HOp::ModuleProcessed,
     HOp::Decorate, HOp::TypeVoid, HOp::TypeInt64, HOp::Constant64, HOp::Variable, HOp::Line, HOp::BeginFunction, HOp::Parameter, HOp::BeginBlock,
-    HOp::IAdd, HOp::Ret, HOp::Kill, HOp::EndFunction,
+    HOp::IAdd, HOp::Ret, HOp::Kill, HOp::EndFunction, HOp::SetVersion,
 ];
 
 /// applies one call; false = the call failed (state unchanged) or is not enabled
@@ -394,6 +402,12 @@ fn apply(b: &mut Builder, o: HOp, t64: &mut Option<u32>) -> bool {
             }
             b.line(3, 1, 2)
         }
+        HOp::SetVersion => {
+            if b.version() == Some((1, 4)) {
+                return false; // idempotent: not a new state
+            }
+            b.set_version(1, 4)
+        }
         HOp::BeginFunction => return b.begin_function(50, None, spirv::FunctionControl::INLINE, 51).is_ok(),
         HOp::Parameter => {
             // parameters after the first block would be assembled before it: only before any block
@@ -419,7 +433,6 @@ fn apply(b: &mut Builder, o: HOp, t64: &mut Option<u32>) -> bool {
 
 fn build(h: &[HOp]) -> Option<Builder> {
     let mut b = Builder::new();
-    b.set_version(1, 4);
     let mut t64 = None;
     for o in h {
         if !apply(&mut b, *o, &mut t64) {
@@ -438,7 +451,7 @@ fn check_history(h: &[HOp]) -> (Option<Viol>, bool, Option<u64>) {
         let s = snap(b.module_ref());
         let mut hs = std::collections::hash_map::DefaultHasher::new();
         s.hash(&mut hs);
-        (b.selected_function(), b.selected_block()).hash(&mut hs);
+        (b.selected_function(), b.selected_block(), b.version()).hash(&mut hs);
         let key = hs.finish();
         if !complete {
             return Ok((false, Some(key)));
@@ -446,8 +459,9 @@ fn check_history(h: &[HOp]) -> (Option<Viol>, bool, Option<u64>) {
         let m = b.module();
         let built = snap(&m);
         let hd = m.header.clone().ok_or("no header")?;
-        if hd.version() != (1, 4) {
-            return Err(format!("version {:?} instead of (1, 4)", hd.version()));
+        let want_version = if h.contains(&HOp::SetVersion) { (1, 4) } else { (spirv::MAJOR_VERSION, spirv::MINOR_VERSION) };
+        if hd.version() != want_version {
+            return Err(format!("version {:?} instead of {:?}", hd.version(), want_version));
         }
         if let Some(mx) = built.all_ids().into_iter().max() {
             if hd.bound <= mx {
